@@ -5,9 +5,11 @@ detects conflicting outputs.
 Property theorems only. Models: M-Proto `Path.lean` (lexical `path/filepath`) and `Plan.lean`
 (gen/generate.go `Generate`, internal/plugin `MultiServiceGenerator.Generate`, main.go root
 handling, the write loop). Three theorems are NEGATION witnesses for defects of the code as it
-is (D32, D33, D34); the model reproduces the current behaviour.
+is (D42, D33, D34); the model reproduces the current behaviour.
 -/
 import ThriftVerif.Proto.PlanProofs3
+import ThriftVerif.Proto.PlanProofs4
+import ThriftVerif.Proto.PlanProofs6
 
 namespace ThriftVerif.Properties.C17
 open ThriftVerif.Proto
@@ -94,9 +96,9 @@ example :
     generatePlan "/r".toList "/o".toList [⟨"/r/a.thrift".toList, some [1]⟩, ⟨"/r/a/.thrift".toList, some [2]⟩] [] []
       = .error .coreConflict := by decide
 
-/-! ### 3. … but only between RAW paths (finding D32) -/
+/-! ### 3. … but only between RAW paths (finding D42) -/
 
-/-- NEGATION witness, D32: conflicts are detected on the strings the plugins return, files are
+/-- NEGATION witness, D42: conflicts are detected on the strings the plugins return, files are
 written at `filepath.Join(out, path)`. Two plugins returning `x.go` and `./x.go` are both
 accepted and the plan holds two different contents for the one file `/o/x.go`. -/
 theorem conflict_after_clean_undetected :
@@ -208,18 +210,61 @@ theorem core_paths_from_root_rel (root rest : Str) (ha : isAbs root = true) (hc 
 
 /-- (iii-b) Hence a Thrift file `root/rest.thrift` — `rest` = directories below the root and
 the base name minus ".thrift", none of them ".." — is mapped to a path without ".."
-component, inside every absolute output directory. `rest = ".."` is exactly D34.
-
-PARTIAL: the shape `file = root ++ "/" ++ rest ++ ".thrift"` is a hypothesis here. Missing is
-its derivation from what main.go establishes, i.e. from `verifyAncestry root [file] = true`
-(resp. `findCommonAncestor`) for a cleaned absolute `file` plus "the last component of
-`file` minus `.thrift` is not `..`". -/
-theorem core_paths_from_root_ancestry_partial (root rest : Str) (ha : isAbs root = true)
+component, inside every absolute output directory. `rest = ".."` is exactly D34. -/
+theorem core_paths_from_root_extends (root rest : Str) (ha : isAbs root = true)
     (hc : clean root = root) (hr : ∀ c ∈ splitSlash rest, c ≠ dotdot) :
     ∃ p, modulePath root (root ++ '/' :: rest ++ thriftSuffix) = some p ∧
       (∀ c ∈ splitSlash p, c ≠ dotdot) ∧
       ∀ out, isAbs out = true → within (clean out) (join2 out p) = true :=
   core_path_of_extends root rest ha hc hr
+
+/-- (iii-c) From what main.go establishes with `--thrift-root`: a cleaned Thrift file that
+`verifyAncestry` accepts below a cleaned absolute root, that is not the root itself and whose
+last component minus ".thrift" is not "..", goes to a path without ".." component, inside
+every absolute output directory. -/
+theorem core_paths_from_root_ancestry (root f : Str) (ha : isAbs root = true) (hcr : clean root = root)
+    (hcf : clean f = f) (hne : f ≠ root) (hanc : verifyAncestry root [f] = true)
+    (hlast : NotDotDotName f) :
+    ∃ p, modulePath root f = some p ∧ (∀ c ∈ splitSlash p, c ≠ dotdot) ∧
+      ∀ out, isAbs out = true → within (clean out) (join2 out p) = true :=
+  core_path_of_ancestry root f ha hcr hcf hne hanc hlast
+
+/-- (iii-d) … and without `--thrift-root`: the same for every module when the root is the
+`findCommonAncestor` of cleaned absolute module paths. -/
+theorem core_paths_from_root_common_ancestor (fs : List Str) (root f : Str)
+    (hfs : ∀ g ∈ fs, CleanAbs g) (h : findCommonAncestor fs = some root) (hf : f ∈ fs)
+    (hne : f ≠ root) (hlast : NotDotDotName f) :
+    ∃ p, modulePath root f = some p ∧ (∀ c ∈ splitSlash p, c ≠ dotdot) ∧
+      ∀ out, isAbs out = true → within (clean out) (join2 out p) = true :=
+  core_path_of_common_ancestor fs root f hfs h hf hne hlast
+
+/-- End to end (5 + 7): cleaned absolute module paths, none of them the Thrift root itself,
+none called "...thrift" — then EVERY planned write of the command line, core and plugin, with
+or without `--thrift-root`, under any completion order, is inside the output directory.
+D34 shows that the base-name hypothesis cannot be dropped. -/
+theorem cli_confined_clean_mods (cwd : Str) (tr : Option Str) (out : Str) (mods plugs ord) (ws : Files)
+    (h : cliPlan cwd tr out mods plugs ord = .ok ws) (hcwd : isAbs cwd = true)
+    (hmods : ∀ m ∈ mods, CleanAbs m.thriftPath ∧ NotDotDotName m.thriftPath)
+    (hroot : ∀ m ∈ mods, cliRoot cwd tr mods ≠ some m.thriftPath) :
+    ∀ w ∈ ws, within (clean (absPath cwd out)) w.1 = true :=
+  ThriftVerif.Proto.cli_confined_clean_mods cwd tr out mods plugs ord ws h hcwd hmods hroot
+
+/-- Non-vacuity of the end-to-end hypotheses (two modules, no `--thrift-root`, one plugin). -/
+example :
+    (∀ m ∈ [(⟨"/r/a/x.thrift".toList, some [1]⟩ : ModIn), ⟨"/r/b/y.thrift".toList, some [2]⟩],
+      (isAbs m.thriftPath = true ∧ clean m.thriftPath = m.thriftPath) ∧
+      (splitSlash (trimSuffix m.thriftPath thriftSuffix)).getLast? ≠ some dotdot) ∧
+    cliRoot "/w".toList none [⟨"/r/a/x.thrift".toList, some [1]⟩, ⟨"/r/b/y.thrift".toList, some [2]⟩]
+      = some "/r".toList ∧
+    cliPlan "/w".toList none "o".toList
+      [⟨"/r/a/x.thrift".toList, some [1]⟩, ⟨"/r/b/y.thrift".toList, some [2]⟩]
+      [some [("p/z.go".toList, [3])]] [0]
+      = .ok [("/w/o/a/x/x.go".toList, [1]), ("/w/o/b/y/y.go".toList, [2]), ("/w/o/p/z.go".toList, [3])] := by
+  decide
+
+/-- The remaining hypothesis `file ≠ root` is not idle either (a "root" that is a `.thrift` path): -/
+example : verifyAncestry "/r.thrift".toList ["/r.thrift".toList] = true ∧
+    modulePath "/r.thrift".toList "/r.thrift".toList = some "../r/r.go".toList := by decide
 
 /-- Non-vacuity of (iii): root `/r`, file `/r/a//b/./c.thrift`. -/
 example : isAbs "/r".toList = true ∧ clean "/r".toList = "/r".toList ∧
@@ -275,5 +320,33 @@ theorem write_loop_not_atomic :
     ∃ fs, writeLoop ⟨[], []⟩ [("/o/main/main.go".toList, [1]), ("/o/main".toList, [2])] = (fs, false) ∧
       fs.files ≠ [] :=
   ⟨write_loop_not_atomic_plan, _, write_loop_not_atomic_witness, by decide⟩
+
+/-- The positive side: on an empty output tree the loop writes the whole plan, whatever the
+iteration order, if the write paths (cleaned, absolute, not "/") are pairwise different and
+none is a directory prefix of another (`PrefixFree a b`: `a ≠ b`, neither `a/` a prefix of `b`
+nor `b/` of `a`). -/
+theorem write_loop_complete (ws : Files)
+    (hclean : ∀ a ∈ ws, CleanAbs a.1 ∧ a.1 ≠ ['/'])
+    (hpw : ws.Pairwise (fun a b => PrefixFree a.1 b.1)) :
+    ∃ fs', writeLoop ⟨[], []⟩ ws = (fs', true) ∧ fs'.files = ws :=
+  writeLoop_complete_prefixFree ws hclean hpw
+
+/-- … in particular for a successful plan (its paths are cleaned and absolute by construction).
+D42 violates `a ≠ b`, D33 violates prefix-freeness. -/
+theorem plan_write_loop_complete (root out : Str) (mods plugs ord) (ws : Files)
+    (h : generatePlan root out mods plugs ord = .ok ws) (ho : isAbs out = true)
+    (hroot : ∀ w ∈ ws, w.1 ≠ ['/'])
+    (hpw : ws.Pairwise (fun a b => PrefixFree a.1 b.1)) :
+    ∃ fs', writeLoop ⟨[], []⟩ ws = (fs', true) ∧ fs'.files = ws :=
+  plan_writeLoop_complete root out mods plugs ord ws h ho hroot hpw
+
+/-- Non-vacuity: three files in two directories are prefix-free; the D33 plan is not. -/
+example :
+    [("/o/a/a.go".toList, ([1] : Content)), ("/o/a/b/c.go".toList, [2]), ("/o/d.go".toList, [3])].Pairwise
+      (fun a b => PrefixFree a.1 b.1) ∧
+    (∀ a ∈ [("/o/a/a.go".toList, ([1] : Content)), ("/o/a/b/c.go".toList, [2]), ("/o/d.go".toList, [3])],
+      (isAbs a.1 = true ∧ clean a.1 = a.1) ∧ a.1 ≠ ['/']) ∧
+    needDirs "/o/a/b/c.go".toList = ["/o".toList, "/o/a".toList, "/o/a/b".toList] ∧
+    ¬ PrefixFree "/o/main/main.go".toList "/o/main".toList := by decide
 
 end ThriftVerif.Properties.C17
